@@ -42,6 +42,8 @@ type Solver struct {
 	errSeen                string
 	depth                  int
 	ufDeclared             map[string]bool
+	ModelTimeout           time.Duration
+	ModelTimeouts          int
 	epoch                  int // incremented whenever the process is restarted (all state lost)
 	Restarts               int
 }
@@ -251,30 +253,52 @@ func (s *Solver) Model(vars []*Var) map[string]ModelValue {
 	}
 	s.send("(get-value (" + strings.Join(names, " ") + "))")
 	s.in.Flush()
-	// read a balanced s-expression
-	var sb strings.Builder
-	depth := 0
-	started := false
-	for {
-		l, err := s.out.ReadString('\n')
-		if err != nil {
-			break
-		}
-		if s.log != nil {
-			s.log.WriteString("; <- " + l)
-		}
-		sb.WriteString(l)
-		for _, c := range l {
-			if c == '(' {
-				depth++
-				started = true
-			} else if c == ')' {
-				depth--
+	// read a balanced s-expression, under a watchdog: model construction over a deep
+	// shared DAG occasionally does not return in z3 4.8.12
+	type rd struct{ text string }
+	done := make(chan rd, 1)
+	go func() {
+		var sb strings.Builder
+		depth := 0
+		started := false
+		for {
+			l, err := s.out.ReadString('\n')
+			if err != nil {
+				break
+			}
+			if s.log != nil {
+				s.log.WriteString("; <- " + l)
+			}
+			sb.WriteString(l)
+			for _, c := range l {
+				if c == '(' {
+					depth++
+					started = true
+				} else if c == ')' {
+					depth--
+				}
+			}
+			if started && depth <= 0 {
+				break
 			}
 		}
-		if started && depth <= 0 {
-			break
-		}
+		done <- rd{sb.String()}
+	}()
+	lim := s.ModelTimeout
+	if lim == 0 {
+		lim = 120 * time.Second
+	}
+	var sb strings.Builder
+	select {
+	case r := <-done:
+		sb.WriteString(r.text)
+	case <-time.After(lim):
+		s.cmd.Process.Kill()
+		<-done
+		s.errSeen = ""
+		s.Restart()
+		s.ModelTimeouts++
+		return nil
 	}
 	sx := parseSexp(sb.String())
 	byName := map[string]*Var{}
